@@ -1349,7 +1349,12 @@ class BaseGaussianState(BaseState):
         cutoff = kwargs.get("cutoff", 10)
         mu, cov = self.reduced_gaussian(modes)  # pylint: disable=unused-variable
 
-        if self.is_pure:
+        # the reduction of a pure entangled state is mixed: decide purity on the reduced state
+        reduced_pure = self.is_pure and (
+            np.abs(np.linalg.det(cov) - (self._hbar / 2) ** (2 * len(modes))) < self.EQ_TOLERANCE
+        )
+
+        if reduced_pure:
             psi = twq.state_vector(
                 mu,
                 cov,
